@@ -1370,6 +1370,10 @@ OPNMIDI_EXPORT int opn2_setTrackOptions(struct OPN2_MIDIPlayer *device, size_t t
     unsigned enableFlag = trackOptions & 3;
     trackOptions &= ~3u;
 
+    // no other options are known: refuse them before anything gets applied
+    if(trackOptions != 0)
+        return -1;
+
     // handle on/off/solo
     switch(enableFlag)
     {
@@ -1384,10 +1388,6 @@ OPNMIDI_EXPORT int opn2_setTrackOptions(struct OPN2_MIDIPlayer *device, size_t t
         seq.setSoloTrack(trackNumber);
         break;
     }
-
-    // handle others...
-    if(trackOptions != 0)
-        return -1;
 
     return 0;
 
